@@ -9,6 +9,9 @@ TARGETS += [ioc.M_IO + ":IO." + m for m in ("write_line", "write_line_raw", "err
 TARGETS += [ioc.M_SEC + ":SectionOutput.write", {"qual": ioc.M_OUT + ":Output.write_line", "self_cls": "SectionOutput"}]
 from . import style_contracts as sc
 TARGETS += [sc.M_SC + ":StyleConverter.convert"]
+for _n in (1, 2):
+    TARGETS += [{"qual": ioc.M_IND + ":Indent.__init__", "tag": "n%d" % _n},
+                {"qual": ioc.M_IND + ":Indent.__exit__", "tag": "n%d" % _n}]
 LEMMAS = []
 try:
     from .C11_bounded import bounded, BOUNDED_RULE  # noqa: F401
